@@ -1,3 +1,629 @@
-//! C16 — not yet built
-use crate::ctx::Ctx;
-pub fn run(c: &mut Ctx) { c.notes.push("C16: not implemented".into()); }
+//! C16 — text strings and one-byte encodings round-trip text.
+//!
+//! Real code exercised: `text_string`, `decode_text_string`, `encode_utf16_be`, `encode_utf8`,
+//! `Dictionary::get_font_encoding`, `Document::{decode_text, encode_text}`, `Document::extract_text`
+//! (before and after `save_to` + `load_mem`).
+//! Correspondence: every request below is answered by the compiled Lean model (`Model/Text.lean`).
+//! Oracles (independent of lopdf and of the model): round-trip equalities stated on Rust `String`s,
+//! the published charts (ISO 32000-1 Annex D) written out below, a hand-written UTF-16BE reference
+//! decoder, and the text the document generator intended to show.
+use crate::codec::*;
+use crate::ctx::{guard, Ctx};
+use crate::rng::Rng;
+use lopdf::content::{Content, Operation};
+use lopdf::{Dictionary, Document, Encoding, Object, Stream, StringFormat};
+use serde_json::json;
+
+const NAMES: [&str; 5] = ["StandardEncoding", "MacRomanEncoding", "MacExpertEncoding", "WinAnsiEncoding", "PDFDocEncoding"];
+
+fn ustr(s: &str) -> String {
+    if s.is_empty() { return "-".into(); }
+    s.chars().map(|c| format!("{:x}", c as u32)).collect::<Vec<_>>().join(".")
+}
+fn show_res(r: &Result<Result<String, lopdf::Error>, (String, String)>) -> String {
+    match r {
+        Ok(Ok(s)) => format!("ok {}", ustr(s)),
+        Ok(Err(_)) => "err".into(),
+        Err((site, _)) => format!("panic {}", site),
+    }
+}
+fn font(enc: Option<Object>) -> Dictionary {
+    let mut d = Dictionary::new();
+    d.set("Type", Object::Name(b"Font".to_vec()));
+    d.set("Subtype", Object::Name(b"Type1".to_vec()));
+    d.set("BaseFont", Object::Name(b"Helvetica".to_vec()));
+    if let Some(e) = enc { d.set("Encoding", e); }
+    d
+}
+fn named_font(n: &str) -> Dictionary { font(Some(Object::Name(n.as_bytes().to_vec()))) }
+
+fn cells(t: &[Option<u16>; 256]) -> String {
+    t.iter().map(|c| match c { Some(u) => format!("{:x}", u), None => "_".into() }).collect::<Vec<_>>().join(",")
+}
+fn show_enc(r: &lopdf::Result<Encoding>) -> String {
+    match r {
+        Ok(Encoding::OneByteEncoding(t)) => format!("one {}", cells(t)),
+        Ok(Encoding::SimpleEncoding(n)) => format!("simple {}", hex_tok(n)),
+        Ok(Encoding::UnicodeMapEncoding(_)) => "cmap".into(),
+        Err(_) => "err".into(),
+    }
+}
+/// the real table behind an /Encoding name (through the public enum variant)
+fn real_table(name: &str) -> Option<[Option<u16>; 256]> {
+    let doc = Document::new();
+    let f = named_font(name);
+    match f.get_font_encoding(&doc) { Ok(Encoding::OneByteEncoding(t)) => Some(*t), _ => None }
+}
+
+// ---------------------------------------------------------------- published charts (oracle)
+/// Some(Some(u)) = the chart says byte b is u; Some(None) = chart says undefined; None = chart silent here
+fn chart(name: &str, b: u8) -> Option<Option<u16>> {
+    const MAC_80_9F: [u16; 32] = [0xC4, 0xC5, 0xC7, 0xC9, 0xD1, 0xD6, 0xDC, 0xE1, 0xE0, 0xE2, 0xE4, 0xE3, 0xE5, 0xE7, 0xE9, 0xE8,
+                                  0xEA, 0xEB, 0xED, 0xEC, 0xEE, 0xEF, 0xF1, 0xF3, 0xF2, 0xF4, 0xF6, 0xF5, 0xFA, 0xF9, 0xFB, 0xFC];
+    // code page 1252, 0x80-0x9F (defined cells) and PDFDocEncoding specials (Annex D.2)
+    const CP1252: [(u8, u16); 27] = [(0x80, 0x20AC), (0x82, 0x201A), (0x83, 0x0192), (0x84, 0x201E), (0x85, 0x2026), (0x86, 0x2020),
+        (0x87, 0x2021), (0x88, 0x02C6), (0x89, 0x2030), (0x8A, 0x0160), (0x8B, 0x2039), (0x8C, 0x0152), (0x8E, 0x017D), (0x91, 0x2018),
+        (0x92, 0x2019), (0x93, 0x201C), (0x94, 0x201D), (0x95, 0x2022), (0x96, 0x2013), (0x97, 0x2014), (0x98, 0x02DC), (0x99, 0x2122),
+        (0x9A, 0x0161), (0x9B, 0x203A), (0x9C, 0x0153), (0x9E, 0x017E), (0x9F, 0x0178)];
+    const PDFDOC: [(u8, u16); 39] = [(0x18, 0x02D8), (0x19, 0x02C7), (0x1A, 0x02C6), (0x1B, 0x02D9), (0x1C, 0x02DD), (0x1D, 0x02DB),
+        (0x1E, 0x02DA), (0x1F, 0x02DC), (0x80, 0x2022), (0x81, 0x2020), (0x82, 0x2021), (0x83, 0x2026), (0x84, 0x2014), (0x85, 0x2013),
+        (0x86, 0x0192), (0x87, 0x2044), (0x88, 0x2039), (0x89, 0x203A), (0x8A, 0x2212), (0x8B, 0x2030), (0x8C, 0x201E), (0x8D, 0x201C),
+        (0x8E, 0x201D), (0x8F, 0x2018), (0x90, 0x2019), (0x91, 0x201A), (0x92, 0x2122), (0x93, 0xFB01), (0x94, 0xFB02), (0x95, 0x0141),
+        (0x96, 0x0152), (0x97, 0x0160), (0x98, 0x0178), (0x99, 0x017D), (0x9A, 0x0131), (0x9B, 0x0142), (0x9C, 0x0153), (0x9D, 0x0161),
+        (0x9E, 0x017E)];
+    if name == "WinAnsiEncoding" { if let Some((_, u)) = CP1252.iter().find(|(x, _)| *x == b) { return Some(Some(*u)); } }
+    if name == "PDFDocEncoding" { if let Some((_, u)) = PDFDOC.iter().find(|(x, _)| *x == b) { return Some(Some(*u)); } }
+    match name {
+        "WinAnsiEncoding" => match b {
+            0x20..=0x7E => Some(Some(b as u16)),
+            0xA0 => Some(Some(0x20)),
+            0xAD => Some(Some(0x2D)),
+            0xA1..=0xFF => Some(Some(b as u16)),
+            _ => None,
+        },
+        "PDFDocEncoding" => match b {
+            0x20..=0x7E => Some(Some(b as u16)),
+            0xA0 => Some(Some(0x20AC)),
+            0xAD => Some(None),
+            0xA1..=0xFF => Some(Some(b as u16)),
+            0x00..=0x17 => Some(None),
+            _ => None,
+        },
+        "MacRomanEncoding" => match b {
+            0x20..=0x7E => Some(Some(b as u16)),
+            0x80..=0x9F => Some(Some(MAC_80_9F[(b - 0x80) as usize])),
+            _ => None,
+        },
+        _ => None,
+    }
+}
+
+/// hand-written strict UTF-16BE decoder (reference for `decode_text_string`, even length only)
+fn ref_utf16be(bs: &[u8]) -> Option<String> {
+    let mut units = vec![];
+    let mut i = 0;
+    while i < bs.len() {
+        let hi = bs[i] as u32; let lo = if i + 1 < bs.len() { bs[i + 1] as u32 } else { 0 };
+        units.push(hi * 256 + lo); i += 2;
+    }
+    let mut out = String::new();
+    let mut i = 0;
+    while i < units.len() {
+        let u = units[i];
+        if (0xD800..0xDC00).contains(&u) {
+            if i + 1 >= units.len() { return None; }
+            let v = units[i + 1];
+            if !(0xDC00..0xE000).contains(&v) { return None; }
+            out.push(char::from_u32(0x10000 + ((u - 0xD800) << 10) + (v - 0xDC00))?);
+            i += 2;
+        } else if (0xDC00..0xE000).contains(&u) { return None; }
+        else { out.push(char::from_u32(u)?); i += 1; }
+    }
+    Some(out)
+}
+
+// ---------------------------------------------------------------- generators
+fn rand_scalar(r: &mut Rng) -> char {
+    loop {
+        let v = match r.below(10) {
+            0..=2 => 0x20 + r.below(0x5F) as u32,            // printable ASCII
+            3 => r.below(0x20) as u32,                        // C0
+            4 => 0x80 + r.below(0x780) as u32,                // 2-byte UTF-8
+            5 | 6 => 0x800 + r.below(0xF800) as u32,          // rest of BMP
+            7 => 0x10000 + r.below(0x100000) as u32,          // astral
+            8 => *r.pick(&[0xFEFFu32, 0xFFFE, 0xFFFD, 0xFFFF, 0xD7FF, 0xE000, 0x10000, 0x10FFFF, 0x7F, 0x80, 0xFF, 0x100, 0x7FF, 0x800]),
+            _ => 0x1F300 + r.below(0x400) as u32,             // emoji
+        };
+        if let Some(c) = char::from_u32(v) { return c; }
+    }
+}
+fn rand_string(r: &mut Rng, max: usize) -> String { let n = r.usize(max + 1); (0..n).map(|_| rand_scalar(r)).collect() }
+fn printable_ascii(r: &mut Rng, max: usize) -> String { let n = r.usize(max + 1); (0..n).map(|_| (0x20 + r.below(0x5F) as u8) as char).collect() }
+/// printable ASCII only (the texts `text_string` keeps as a PDFDocEncoding literal)
+fn printable(s: &str) -> bool { s.bytes().all(|b| (0x20..0x7F).contains(&b)) }
+
+fn repertoire(t: &[Option<u16>; 256]) -> Vec<char> {
+    let mut v: Vec<char> = t.iter().filter_map(|c| c.and_then(|u| char::from_u32(u as u32))).collect();
+    v.sort(); v.dedup(); v
+}
+
+fn dts(o: &Object) -> Result<Result<String, lopdf::Error>, (String, String)> { guard(|| lopdf::decode_text_string(o)) }
+
+pub fn run(c: &mut Ctx) {
+    c.rule = "tables: 5 public /Encoding names x 256 bytes exhaustively (single bytes, the 256-byte string, random byte strings), \
+font dictionaries with absent / ill-typed / unknown / Identity encodings; encode direction over each table's repertoire and outside it; \
+text strings: every Unicode scalar through text_string/decode_text_string (oracle exhaustive in both tiers; model comparison exhaustive in \
+thorough, boundaries + sample in quick), random strings (astral, C0 in non-ASCII text, lone BOM characters), decode_text_string on \
+malformed input (odd-length and unpaired-surrogate UTF-16BE, valid and invalid UTF-8 after a mark, non-strings); extraction on generated \
+documents (1-3 pages, fonts direct / by reference / inherited / shadowed, Tj and TJ, several Tf switches, compressed or plain streams) \
+before and after save_to + load_mem. Non-trivial = input not empty and not plain printable ASCII, or a document; distinct by request text.".into();
+    let doc0 = Document::new();
+
+    // ---------------------------------------------------------------- font dictionary -> encoding
+    let mut font_cases: Vec<(String, Dictionary)> = vec![];
+    for n in NAMES { font_cases.push((n.to_string(), named_font(n))); }
+    font_cases.push(("absent".into(), font(None)));
+    font_cases.push(("int".into(), font(Some(Object::Integer(3)))));
+    font_cases.push(("dict".into(), font(Some(Object::Dictionary(Dictionary::new())))));
+    font_cases.push(("string".into(), font(Some(Object::string_literal("WinAnsiEncoding")))));
+    for n in ["Identity-H", "Identity-V", "SymbolEncoding", "ExpertEncoding", "winansiencoding", "WinAnsiEncoding ", "", "GBK-EUC-H", "StandardEncodin", "PDFDocEncodingX"] {
+        font_cases.push((format!("name:{}", n), named_font(n)));
+    }
+    { let mut d = named_font("WinAnsiEncoding"); d.remove(b"Type"); font_cases.push(("no-type".into(), d)); }
+    { let mut d = named_font("WinAnsiEncoding"); d.set("Type", Object::Name(b"Fnt".to_vec())); font_cases.push(("wrong-type".into(), d)); }
+    { let mut d = named_font("WinAnsiEncoding"); d.set("Type", Object::string_literal("Font")); font_cases.push(("type-string".into(), d)); }
+    { let mut d = Dictionary::new(); d.set("Encoding", Object::Name(b"MacRomanEncoding".to_vec())); d.set("Type", Object::Name(b"Font".to_vec())); font_cases.push(("reordered".into(), d)); }
+    for (i, (label, d)) in font_cases.iter().enumerate() {
+        let Some(_r) = c.case("fenc", i as u64) else { continue };
+        let req = format!("c16.fenc {}", show_obj(&Object::Dictionary(d.clone())));
+        c.nontrivial(&req);
+        match guard(|| show_enc(&d.get_font_encoding(&doc0))) {
+            Ok(rep) => {
+                c.count(&format!("fenc.{}", rep.split(' ').next().unwrap_or("")));
+                if i < 5 && !rep.starts_with("one ") {
+                    c.oracle_fail("fenc:predefined-name-not-a-table", "a predefined /Encoding name did not select a one-byte table", json!({"font": label}));
+                }
+                c.corr(req, rep);
+            }
+            Err((site, msg)) => c.oracle_fail(&format!("panic@{}", site), &msg, json!({"font": label})),
+        }
+    }
+
+    // ---------------------------------------------------------------- 5 encodings x 256 bytes
+    for (ti, name) in NAMES.iter().enumerate() {
+        let f = named_font(name);
+        let fobj = show_obj(&Object::Dictionary(f.clone()));
+        let Some(table) = real_table(name) else {
+            c.oracle_fail("fenc:predefined-name-not-a-table", "no table behind a predefined name", json!({"name": name}));
+            continue;
+        };
+        let enc = f.get_font_encoding(&doc0).unwrap();
+        let rep = repertoire(&table);
+        // single bytes, exhaustively
+        for b in 0..=255u8 {
+            let Some(_r) = c.case(&format!("byte.{}", name), b as u64) else { continue };
+            let req = format!("c16.dec {} {}", fobj, hex(&[b]));
+            c.nontrivial(&req);
+            let res = guard(|| Document::decode_text(&enc, &[b]));
+            c.corr(req.clone(), show_res(&res));
+            match &res {
+                Ok(Ok(s)) => {
+                    if s.is_empty() { c.count(&format!("byte.{}.undefined", name)); } else { c.count(&format!("byte.{}.defined", name)); }
+                    // chart agreement
+                    if let Some(exp) = chart(name, b) {
+                        let got: Option<u16> = { let u: Vec<u16> = s.encode_utf16().collect(); if u.len() == 1 { Some(u[0]) } else if u.is_empty() { None } else { Some(0xFFFF) } };
+                        c.count("chart.cells_checked");
+                        if got != exp {
+                            c.oracle_fail("chart:mismatch", "table cell differs from the published chart",
+                                json!({"encoding": name, "byte": b, "expected": format!("{:?}", exp), "got": format!("{:?}", got)}));
+                        }
+                    }
+                    // re-encoding decoded text reproduces bytes that decode to the same text
+                    let back = guard(|| { let e = Document::encode_text(&enc, s); Document::decode_text(&enc, &e) });
+                    match back {
+                        Ok(Ok(s2)) if &s2 == s => {}
+                        other => c.oracle_fail("reencode:unstable", "decode(encode(decode b)) differs from decode b",
+                            json!({"encoding": name, "byte": b, "decoded": ustr(s), "again": format!("{:?}", other.map(|x| x.ok()))})),
+                    }
+                }
+                Ok(Err(e)) => c.oracle_fail("decode:failed", "decoding a byte with a predefined encoding failed", json!({"encoding": name, "byte": b, "error": e.to_string()})),
+                Err((site, msg)) => c.oracle_fail(&format!("panic@{}", site), msg, json!({"encoding": name, "byte": b})),
+            }
+        }
+        // all 256 bytes at once + random byte strings
+        let n_rand = c.n(60, 1500);
+        for i in 0..(n_rand + 1) {
+            let Some(mut r) = c.case(&format!("bytes.{}", name), i) else { continue };
+            let bs: Vec<u8> = if i == 0 { (0..=255u8).collect() } else { let n = r.usize(40); r.bytes(n) };
+            let req = format!("c16.dec {} {}", fobj, hex_tok(&bs));
+            c.nontrivial(&req);
+            let res = guard(|| Document::decode_text(&enc, &bs));
+            c.corr(req, show_res(&res));
+            match &res {
+                Ok(Ok(s)) => {
+                    // oracle: concatenation of the per-byte cells, as the type of the table says
+                    let exp: String = String::from_utf16_lossy(&bs.iter().filter_map(|b| table[*b as usize]).collect::<Vec<u16>>());
+                    if &exp != s { c.oracle_fail("decode:not-cellwise", "decoded string is not the concatenation of the cells", json!({"encoding": name, "bytes": hex(&bs)})); }
+                    let e = Document::encode_text(&enc, s);
+                    let req2 = format!("c16.enc {} {}", fobj, ustr(s));
+                    c.corr(req2, format!("ok {}", hex_tok(&e)));
+                    match Document::decode_text(&enc, &e) {
+                        Ok(s2) if &s2 == s => c.count("reencode.stable"),
+                        _ => c.oracle_fail("reencode:unstable", "decode(encode(decode bs)) differs from decode bs", json!({"encoding": name, "bytes": hex(&bs)})),
+                    }
+                }
+                Ok(Err(e)) => c.oracle_fail("decode:failed", "decoding failed", json!({"encoding": name, "bytes": hex(&bs), "error": e.to_string()})),
+                Err((site, msg)) => c.oracle_fail(&format!("panic@{}", site), msg, json!({"encoding": name, "bytes": hex(&bs)})),
+            }
+        }
+        // encode direction: every repertoire character alone, then strings inside / outside the repertoire
+        let n_enc = c.n(80, 2000);
+        for i in 0..(rep.len() as u64 + n_enc) {
+            let Some(mut r) = c.case(&format!("enc.{}", name), i) else { continue };
+            let (s, inside): (String, bool) = if (i as usize) < rep.len() { (rep[i as usize].to_string(), true) }
+                else if r.chance(2, 3) { let n = 1 + r.usize(24); ((0..n).map(|_| *r.pick(&rep)).collect(), true) }
+                else { let n = 1 + r.usize(12); ((0..n).map(|_| if r.chance(1, 2) { *r.pick(&rep) } else { rand_scalar(&mut r) }).collect(), false) };
+            let req = format!("c16.enc {} {}", fobj, ustr(&s));
+            c.nontrivial(&req);
+            match guard(|| { let e = Document::encode_text(&enc, &s); let d = Document::decode_text(&enc, &e); (e, d) }) {
+                Ok((e, d)) => {
+                    c.corr(req, format!("ok {}", hex_tok(&e)));
+                    if inside {
+                        c.count("enc.inside_repertoire");
+                        match d { Ok(s2) if s2 == s => {}
+                            other => c.oracle_fail("encode:repertoire-rt", "text over the table's repertoire does not survive encode+decode",
+                                json!({"encoding": name, "text": ustr(&s), "bytes": hex(&e), "got": format!("{:?}", other.ok().map(|x| ustr(&x)))})) }
+                    } else {
+                        c.count("enc.outside_repertoire");
+                        // characters outside the repertoire are dropped, the others survive in order
+                        let exp: String = s.chars().filter(|ch| rep.contains(ch)).collect();
+                        match d { Ok(s2) if s2 == exp => {}
+                            _ => c.oracle_fail("encode:outside-repertoire", "characters inside the repertoire did not survive in order", json!({"encoding": name, "text": ustr(&s)})) }
+                    }
+                }
+                Err((site, msg)) => c.oracle_fail(&format!("panic@{}", site), &msg, json!({"encoding": name, "text": ustr(&s)})),
+            }
+        }
+        let _ = ti;
+    }
+
+    // ---------------------------------------------------------------- text strings: every scalar
+    scalar_block(c);
+    rest(c);
+}
+
+fn scalar_block(c: &mut Ctx) {
+    {
+        let mut corr_scalars: Vec<u32> = vec![];
+        if c.quick() {
+            corr_scalars.extend(0x00..0x200);
+            for b in [0x7FFu32, 0x800, 0xFFF, 0x1000, 0x20AC, 0xD7FF, 0xE000, 0xFDD0, 0xFEFF, 0xFFFD, 0xFFFE, 0xFFFF, 0x10000, 0x10001,
+                      0x103FF, 0x10400, 0x1F600, 0xFFFFF, 0x100000, 0x10FC00, 0x10FFFE, 0x10FFFF] { corr_scalars.push(b); }
+            let Some(mut r) = c.case("scalar.sample", 0) else { return };
+            for _ in 0..3000 { corr_scalars.push(rand_scalar(&mut r) as u32); }
+        }
+        let Some(_r) = c.case("scalar.all", 0) else { return };
+        let mut checked = 0u64; let mut lit = 0u64; let mut hexs = 0u64;
+        for v in 0..=0x10FFFFu32 {
+            let Some(ch) = char::from_u32(v) else { continue };
+            let s = ch.to_string();
+            let o = lopdf::text_string(&s);
+            let d = lopdf::decode_text_string(&o);
+            checked += 1;
+            match &o { Object::String(_, StringFormat::Literal) => lit += 1, _ => hexs += 1 }
+            // form: ASCII stays a literal string of the same bytes; everything else is FE FF + UTF-16BE
+            let form_ok = match &o {
+                Object::String(b, StringFormat::Literal) => (0x20..0x7F).contains(&v) && b == s.as_bytes(),
+                Object::String(b, StringFormat::Hexadecimal) => !(0x20..0x7F).contains(&v) && b.len() >= 2 && b[0] == 0xFE && b[1] == 0xFF && ref_utf16be(&b[2..]).as_deref() == Some(&s),
+                _ => false,
+            };
+            if !form_ok { c.oracle_fail("ts:form", "text_string output has the wrong form", json!({"scalar": format!("{:x}", v), "obj": show_obj(&o)})); }
+            if d.as_deref().ok() != Some(s.as_str()) {
+                c.oracle_fail("ts-rt:other", "decode_text_string(text_string(c)) != c", json!({"scalar": format!("{:x}", v), "obj": show_obj(&o)}));
+            }
+            if !c.quick() {
+                c.corr(format!("c16.tsrt {:x}", v), format!("{} ; {}", show_obj(&o), match &d { Ok(x) => format!("ok {}", ustr(x)), Err(_) => "err".into() }));
+            }
+        }
+        c.count_n("scalar.checked", checked); c.count_n("scalar.literal_form", lit); c.count_n("scalar.utf16_form", hexs);
+        c.evaluations += checked;
+        for v in corr_scalars {
+            let Some(ch) = char::from_u32(v) else { continue };
+            let s = ch.to_string();
+            let o = lopdf::text_string(&s); let d = lopdf::decode_text_string(&o);
+            if v >= 0x7F { c.nontrivial(&format!("scalar {:x}", v)); }
+            c.corr(format!("c16.tsrt {:x}", v), format!("{} ; {}", show_obj(&o), match &d { Ok(x) => format!("ok {}", ustr(x)), Err(_) => "err".into() }));
+        }
+    }
+
+}
+
+fn rest(c: &mut Ctx) {
+    // ---------------------------------------------------------------- text strings: random strings
+    let n_ts = c.n(1500, 40000);
+    for i in 0..n_ts {
+        let Some(mut r) = c.case("ts", i) else { continue };
+        let s = match r.below(6) {
+            0 => printable_ascii(&mut r, 30),
+            5 => { let n = r.usize(16); (0..n).map(|_| r.below(0x80) as u8 as char).collect() }      // ASCII incl. C0 controls and DEL
+            1 => { let mut s = rand_string(&mut r, 12); s.push('\u{FEFF}'); s.push_str(&rand_string(&mut r, 4)); s }
+            2 => { let mut s = String::from("\u{FEFF}"); s.push_str(&rand_string(&mut r, 8)); s }
+            _ => rand_string(&mut r, 24),
+        };
+        let req = format!("c16.tsrt {}", ustr(&s));
+        if !s.is_empty() && !s.bytes().all(|b| (0x20..0x7F).contains(&b)) { c.nontrivial(&req); }
+        match guard(|| { let o = lopdf::text_string(&s); let d = lopdf::decode_text_string(&o); (o, d) }) {
+            Ok((o, d)) => {
+                if printable(&s) { c.count("ts.literal"); } else { c.count("ts.utf16"); }
+                if s.is_ascii() && !printable(&s) { c.count("ts.ascii_with_controls"); }
+                let form_ok = match &o { Object::String(b, StringFormat::Literal) => printable(&s) && b == s.as_bytes(),
+                                         Object::String(b, StringFormat::Hexadecimal) => !printable(&s) && b.len() >= 2 && b[0] == 0xFE && b[1] == 0xFF && ref_utf16be(&b[2..]).as_deref() == Some(s.as_str()),
+                                         _ => false };
+                if !form_ok { c.oracle_fail("ts:form", "text_string output has the wrong form", json!({"text": ustr(&s), "obj": show_obj(&o)})); }
+                if s.chars().any(|ch| ch as u32 >= 0x10000) { c.count("ts.with_astral"); }
+                if s.chars().any(|ch| (ch as u32) < 0x20 || ch as u32 == 0x7F) { c.count("ts.with_c0_or_del"); }
+                c.corr(req, format!("{} ; {}", show_obj(&o), match &d { Ok(x) => format!("ok {}", ustr(x)), Err(_) => "err".into() }));
+                if d.as_deref().ok() != Some(s.as_str()) {
+                    c.oracle_fail("ts-rt:other", "decode_text_string(text_string(s)) != s", json!({"text": ustr(&s), "obj": show_obj(&o)}));
+                }
+                // the explicit encoders
+                let u16b = lopdf::encode_utf16_be(&s);
+                c.corr(format!("c16.u16 {}", ustr(&s)), format!("ok {}", hex_tok(&u16b)));
+                if u16b.len() < 2 || u16b[0] != 0xFE || u16b[1] != 0xFF || ref_utf16be(&u16b[2..]).as_deref() != Some(s.as_str()) {
+                    c.oracle_fail("u16:form", "encode_utf16_be is not FE FF + UTF-16BE of the text", json!({"text": ustr(&s)}));
+                }
+                let u8b = lopdf::encode_utf8(&s);
+                c.corr(format!("c16.u8 {}", ustr(&s)), format!("ok {}", hex_tok(&u8b)));
+                if u8b.len() < 3 || u8b[..3] != [0xEF, 0xBB, 0xBF] || &u8b[3..] != s.as_bytes() {
+                    c.oracle_fail("u8:form", "encode_utf8 is not EF BB BF + UTF-8 of the text", json!({"text": ustr(&s)}));
+                }
+                // "UTF-8 with a mark decodes too": exactly the text comes back
+                let o8 = Object::String(u8b, StringFormat::Literal);
+                let d8 = dts(&o8);
+                c.corr(format!("c16.dts {}", show_obj(&o8)), show_res(&d8));
+                match &d8 {
+                    Ok(Ok(t)) if t == &s => c.count("u8.exact"),
+                    _ => c.oracle_fail("u8:decode", "UTF-8 text string with a mark does not decode to its text", json!({"text": ustr(&s)})),
+                }
+            }
+            Err((site, msg)) => c.oracle_fail(&format!("panic@{}", site), &msg, json!({"text": ustr(&s)})),
+        }
+    }
+
+    // ---------------------------------------------------------------- decode_text_string on arbitrary objects
+    let n_dts = c.n(1500, 40000);
+    for i in 0..n_dts {
+        let Some(mut r) = c.case("dts", i) else { continue };
+        let kind = r.below(9);
+        let o: Object = match kind {
+            0 => { // UTF-16BE, valid, even length
+                let s = rand_string(&mut r, 10); let mut b = vec![0xFE, 0xFF]; for u in s.encode_utf16() { b.extend(u.to_be_bytes()); } Object::String(b, StringFormat::Hexadecimal) }
+            1 => { // UTF-16BE with random units (unpaired surrogates likely)
+                let n = r.usize(8); let mut b = vec![0xFE, 0xFF];
+                for _ in 0..n { let u: u16 = if r.chance(1, 2) { 0xD800 + r.below(0x800) as u16 } else { r.next() as u16 }; b.extend(u.to_be_bytes()); }
+                Object::String(b, StringFormat::Hexadecimal) }
+            2 => { // odd length
+                let s = rand_string(&mut r, 6); let mut b = vec![0xFE, 0xFF]; for u in s.encode_utf16() { b.extend(u.to_be_bytes()); } b.push(r.byte()); Object::String(b, StringFormat::Literal) }
+            3 => { // UTF-8 with mark, valid
+                let s = rand_string(&mut r, 10); Object::String(lopdf::encode_utf8(&s), StringFormat::Literal) }
+            4 => { // UTF-8 mark then arbitrary / nearly valid bytes
+                let mut b = vec![0xEF, 0xBB, 0xBF];
+                let s = rand_string(&mut r, 6); b.extend(s.as_bytes());
+                for _ in 0..(1 + r.usize(3)) { if b.len() > 3 { let p = 3 + r.usize(b.len() - 3); match r.below(3) { 0 => b[p] = r.byte(), 1 => { b.remove(p); } _ => b.insert(p, *r.pick(&[0xC0, 0xC1, 0xED, 0xA0, 0xF4, 0x90, 0xF5, 0x80, 0xE0, 0x9F, 0xF0, 0x8F, 0xBF])) } } }
+                Object::String(b, StringFormat::Literal) }
+            5 => { let n = r.usize(20); Object::String(r.bytes(n), StringFormat::Literal) }            // PDFDocEncoding / whatever
+            6 => { // truncated marks
+                Object::String(r.pick(&[vec![0xFE], vec![0xFF, 0xFE, 0x41, 0x00], vec![0xEF, 0xBB], vec![0xFE, 0xFF], vec![0xEF, 0xBB, 0xBF], vec![0xFE, 0xFF, 0x41], vec![]]).clone(), StringFormat::Literal) }
+            7 => r.pick(&[Object::Null, Object::Integer(5), Object::Name(b"abc".to_vec()), Object::Array(vec![]), Object::Boolean(true)]).clone(),
+            _ => { let s = printable_ascii(&mut r, 20); Object::string_literal(s) }
+        };
+        let req = format!("c16.dts {}", show_obj(&o));
+        c.nontrivial(&req);
+        let res = dts(&o);
+        c.count(&format!("dts.kind{}.{}", kind, match &res { Ok(Ok(_)) => "ok", Ok(Err(_)) => "err", Err(_) => "panic" }));
+        c.corr(req.clone(), show_res(&res));
+        match (&o, &res) {
+            (_, Err((site, msg))) => c.oracle_fail(&format!("panic@{}", site), msg, json!({"request": req})),
+            (Object::String(b, _), Ok(got)) if b.starts_with(&[0xFE, 0xFF]) => {
+                // reference: strict UTF-16BE (a trailing odd byte read as the high byte of a unit — stated behaviour)
+                let exp = ref_utf16be(&b[2..]);
+                if exp.as_deref() != got.as_ref().ok().map(|x| x.as_str()) {
+                    c.oracle_fail("dts:utf16", "UTF-16BE text string decoded differently from the reference decoder", json!({"request": req}));
+                }
+            }
+            (Object::String(b, _), Ok(got)) if b.starts_with(&[0xEF, 0xBB, 0xBF]) => {
+                let exp = std::str::from_utf8(&b[3..]).ok();
+                let g = got.as_ref().ok().map(|x| x.as_str());
+                if exp != g { c.oracle_fail("dts:utf8", "UTF-8 text string decoded differently from the reference", json!({"request": req})); }
+            }
+            (Object::String(b, _), Ok(got)) => {
+                // PDFDocEncoding: printable ASCII and Latin-1 per the chart; never an error
+                match got { Ok(s) => {
+                    if b.iter().all(|x| matches!(chart("PDFDocEncoding", *x), Some(Some(_)))) {
+                        let exp: String = b.iter().map(|x| char::from_u32(chart("PDFDocEncoding", *x).unwrap().unwrap() as u32).unwrap()).collect();
+                        if &exp != s { c.oracle_fail("dts:pdfdoc", "PDFDocEncoding text decoded differently from the chart", json!({"request": req})); }
+                    } }
+                    Err(_) => c.oracle_fail("dts:pdfdoc-failed", "PDFDocEncoding decoding failed", json!({"request": req})) }
+            }
+            (_, Ok(got)) => if got.is_ok() { c.oracle_fail("dts:non-string", "a non-string object decoded as a text string", json!({"request": req})); },
+        }
+    }
+
+    // ---------------------------------------------------------------- witnesses of known findings
+    if let Some(_r) = c.case("witness", 0) {
+        // F-C16-a (fixed by 66885be): reproduced = the defect is back
+        let s = "a\nb\tc";
+        let o = lopdf::text_string(s);
+        let d = lopdf::decode_text_string(&o).ok();
+        c.corr(format!("c16.tsrt {}", ustr(s)), format!("{} ; ok {}", show_obj(&o), ustr(d.as_deref().unwrap_or("?"))));
+        let mut lost = 0;
+        for v in (0u32..0x20).chain([0x7F]) {
+            let s = char::from_u32(v).unwrap().to_string();
+            if lopdf::decode_text_string(&lopdf::text_string(&s)).ok().as_deref() != Some(s.as_str()) { lost += 1; }
+        }
+        c.count_n("witness.ascii_chars_not_round_tripping", lost);
+        c.witness("F-C16-a", d.as_deref() != Some(s) || lost > 0, &format!("text_string({:?}) decodes to {:?}; {} of the 33 C0/DEL characters do not round-trip", s, d, lost));
+        // F-C16-b (fixed by 62deee4)
+        let o = Object::String(lopdf::encode_utf8("abc"), StringFormat::Literal);
+        let d = lopdf::decode_text_string(&o).ok();
+        c.corr(format!("c16.dts {}", show_obj(&o)), format!("ok {}", ustr(d.as_deref().unwrap_or("?"))));
+        c.witness("F-C16-b", d.as_deref() != Some("abc"), &format!("decode_text_string(encode_utf8(\"abc\")) = {:?}", d));
+    }
+
+    // ---------------------------------------------------------------- extraction on generated documents
+    let tables: Vec<(&str, [Option<u16>; 256])> = NAMES.iter().filter_map(|n| real_table(n).map(|t| (*n, t))).collect();
+    if tables.len() != NAMES.len() { return; }
+    let n_doc = c.n(250, 4000);
+    for i in 0..n_doc {
+        let Some(mut r) = c.case("extract", i) else { continue };
+        gen_doc_case(c, &mut r, &tables);
+    }
+}
+
+struct PageSpec { fonts: Vec<(Vec<u8>, Dictionary)>, ops: Vec<Operation>, expected: Option<String> }
+
+/// build the effective font list (BTreeMap order, first definition wins) — computed here, not by lopdf
+fn effective(page_fonts: &[(Vec<u8>, Dictionary)], parent_fonts: &[(Vec<u8>, Dictionary)]) -> Vec<(Vec<u8>, Dictionary)> {
+    let mut m: std::collections::BTreeMap<Vec<u8>, Dictionary> = std::collections::BTreeMap::new();
+    for (n, d) in page_fonts.iter().chain(parent_fonts.iter()) { if !m.contains_key(n) { m.insert(n.clone(), d.clone()); } }
+    m.into_iter().collect()
+}
+
+fn gen_doc_case(c: &mut Ctx, r: &mut Rng, tables: &[(&str, [Option<u16>; 256])]) {
+    let mut doc = Document::with_version("1.5");
+    let pages_id = doc.new_object_id();
+    let n_pages = 1 + r.usize(3);
+    let malformed = r.chance(1, 6);
+    // parent-level fonts (inherited), possibly shadowed by page-level ones
+    let mut parent_fonts: Vec<(Vec<u8>, Dictionary)> = vec![];
+    if r.chance(1, 2) {
+        for k in 0..(1 + r.usize(2)) { let (n, _) = *r.pick(tables); parent_fonts.push((format!("F{}", k + 1).into_bytes(), named_font(n))); }
+    }
+    let mut specs: Vec<PageSpec> = vec![];
+    let mut kids = vec![];
+    for _ in 0..n_pages {
+        // page fonts
+        let mut page_fonts: Vec<(Vec<u8>, Dictionary)> = vec![];
+        let nf = 1 + r.usize(3);
+        for k in 0..nf {
+            let name = if r.chance(1, 5) { format!("G{}", k) } else { format!("F{}", k + 1) }.into_bytes();
+            let d = if malformed && r.chance(1, 3) {
+                match r.below(4) { 0 => font(None), 1 => named_font("Custom-Enc"), 2 => { let mut d = named_font("WinAnsiEncoding"); d.remove(b"Type"); d } _ => named_font("Identity-H") }
+            } else { named_font(r.pick(tables).0) };
+            if !page_fonts.iter().any(|(n, _)| n == &name) { page_fonts.push((name, d)); }
+        }
+        let eff = effective(&page_fonts, &parent_fonts);
+        // content
+        let mut ops = vec![Operation::new("BT", vec![])];
+        let mut expected = String::new();
+        let exp_ok = !malformed;
+        let mut chunk = String::new();           // text shown since the last font switch: a space per TJ array / wide gap, newline at ET
+        let mut cur: Option<[Option<u16>; 256]> = None;
+        let n_ops = 1 + r.usize(7);
+        for _ in 0..n_ops {
+            match r.below(10) {
+                0..=2 => { // Tf
+                    let (fname, fd) = if malformed && r.chance(1, 5) { (b"Nope".to_vec(), None) } else { let (n, d) = r.pick(&eff).clone(); (n, Some(d)) };
+                    ops.push(Operation::new("Tf", vec![Object::Name(fname), Object::Integer(12)]));
+                    expected.push_str(&chunk); chunk.clear();
+                    cur = fd.and_then(|d| match d.get(b"Encoding").and_then(Object::as_name) { Ok(n) => tables.iter().find(|(tn, _)| tn.as_bytes() == n).map(|(_, t)| *t), _ => None }
+                        .or_else(|| if d.has(b"Encoding") { None } else { tables.iter().find(|(tn, _)| *tn == "StandardEncoding").map(|(_, t)| *t) }));
+                }
+                3..=6 => { // Tj
+                    if let Some(t) = cur {
+                        let rep = repertoire(&t);
+                        let n = r.usize(12); let s: String = (0..n).map(|_| *r.pick(&rep)).collect();
+                        let bytes = encode_ref(&t, &s);
+                        ops.push(Operation::new("Tj", vec![Object::String(bytes, if r.chance(1, 4) { StringFormat::Hexadecimal } else { StringFormat::Literal })]));
+                        chunk.push_str(&s);
+                    } else { ops.push(Operation::new("Tj", vec![Object::string_literal("ignored")])); }
+                }
+                7 | 8 => { // TJ
+                    if let Some(t) = cur {
+                        let rep = repertoire(&t);
+                        let mut arr = vec![];
+                        for _ in 0..(1 + r.usize(4)) {
+                            if r.chance(2, 3) { let n = r.usize(6); let s: String = (0..n).map(|_| *r.pick(&rep)).collect(); arr.push(Object::String(encode_ref(&t, &s), StringFormat::Literal)); chunk.push_str(&s); }
+                            else { let k = if r.chance(1, 4) { *r.pick(&[-101i64, -100, -99]) } else { r.range(-300, 100) }; arr.push(Object::Integer(k)); if k < -100 { chunk.push(' '); } }
+                        }
+                        ops.push(Operation::new("TJ", vec![Object::Array(arr)]));
+                        chunk.push(' ');
+                    }
+                }
+                _ => { ops.push(Operation::new("ET", vec![])); if !chunk.ends_with('\n') { chunk.push('\n'); } ops.push(Operation::new("BT", vec![])); }
+            }
+        }
+        ops.push(Operation::new("ET", vec![]));
+        if !chunk.ends_with('\n') { chunk.push('\n'); }
+        expected.push_str(&chunk);
+        // install
+        let content = Content { operations: ops.clone() };
+        let data = match content.encode() { Ok(d) => d, Err(_) => return };
+        let cid = doc.add_object(Stream::new(Dictionary::new(), data));
+        let mut fd = Dictionary::new();
+        for (n, d) in &page_fonts { if r.chance(1, 2) { let id = doc.add_object(Object::Dictionary(d.clone())); fd.set(n.clone(), Object::Reference(id)); } else { fd.set(n.clone(), Object::Dictionary(d.clone())); } }
+        let mut res = Dictionary::new();
+        if r.chance(1, 3) { let id = doc.add_object(Object::Dictionary(fd)); res.set("Font", Object::Reference(id)); } else { res.set("Font", Object::Dictionary(fd)); }
+        let mut page = Dictionary::new();
+        page.set("Type", Object::Name(b"Page".to_vec()));
+        page.set("Parent", Object::Reference(pages_id));
+        page.set("Contents", Object::Reference(cid));
+        if r.chance(1, 2) { let id = doc.add_object(Object::Dictionary(res)); page.set("Resources", Object::Reference(id)); } else { page.set("Resources", Object::Dictionary(res)); }
+        let pid = doc.add_object(Object::Dictionary(page));
+        kids.push(Object::Reference(pid));
+        specs.push(PageSpec { fonts: eff, ops, expected: if exp_ok { Some(expected) } else { None } });
+    }
+    let mut pages = Dictionary::new();
+    pages.set("Type", Object::Name(b"Pages".to_vec()));
+    pages.set("Count", Object::Integer(n_pages as i64));
+    pages.set("Kids", Object::Array(kids));
+    if !parent_fonts.is_empty() {
+        let mut fd = Dictionary::new();
+        for (n, d) in &parent_fonts { fd.set(n.clone(), Object::Dictionary(d.clone())); }
+        let mut res = Dictionary::new(); res.set("Font", Object::Dictionary(fd));
+        let id = doc.add_object(Object::Dictionary(res));
+        pages.set("Resources", Object::Reference(id));      // inherited resources are only followed by reference
+    }
+    doc.objects.insert(pages_id, Object::Dictionary(pages));
+    let mut cat = Dictionary::new();
+    cat.set("Type", Object::Name(b"Catalog".to_vec()));
+    cat.set("Pages", Object::Reference(pages_id));
+    let cat_id = doc.add_object(Object::Dictionary(cat));
+    doc.trailer.set("Root", Object::Reference(cat_id));
+    if r.chance(1, 2) { doc.compress(); c.count("extract.compressed"); }
+
+    // reload
+    let reloaded: Option<Document> = guard(|| { let mut d2 = doc.clone(); let mut buf = vec![]; d2.save_to(&mut buf).ok().and_then(|_| Document::load_mem(&buf).ok()) }).ok().flatten();
+    if reloaded.is_none() { c.oracle_fail("extract:reload-failed", "generated document does not save and reload", json!({})); }
+    c.count(if malformed { "extract.docs_malformed" } else { "extract.docs_valid" });
+
+    for (pi, spec) in specs.iter().enumerate() {
+        let pn = (pi + 1) as u32;
+        let mut req = format!("c16.extract {}", spec.fonts.len());
+        for (n, d) in &spec.fonts { req.push_str(&format!(" {} {}", hex_tok(n), show_obj(&Object::Dictionary(d.clone())))); }
+        req.push_str(&format!(" {}", spec.ops.len()));
+        for op in &spec.ops { req.push_str(&format!(" {} {}", hex_tok(op.operator.as_bytes()), show_obj(&Object::Array(op.operands.clone())))); }
+        c.nontrivial(&req);
+        let res = guard(|| doc.extract_text(&[pn]));
+        c.corr(req.clone(), show_res(&res));
+        c.count(&format!("extract.page.{}", match &res { Ok(Ok(_)) => "ok", Ok(Err(_)) => "err", Err(_) => "panic" }));
+        match (&res, &spec.expected) {
+            (Err((site, msg)), _) => c.oracle_fail(&format!("panic@{}", site), msg, json!({"request": req})),
+            (Ok(Ok(got)), Some(exp)) => { if got != exp { c.oracle_fail("extract:text", "extracted text differs from the text shown", json!({"request": req, "expected": ustr(exp), "got": ustr(got)})); } else { c.count("extract.oracle_equal"); } }
+            (Ok(Err(e)), Some(exp)) => c.oracle_fail("extract:failed", "extraction failed on a well-formed page", json!({"request": req, "expected": ustr(exp), "error": e.to_string()})),
+            _ => {}
+        }
+        if let Some(d2) = &reloaded {
+            let res2 = guard(|| d2.extract_text(&[pn]));
+            if show_res(&res2) != show_res(&res) {
+                c.oracle_fail("extract:after-reload", "extraction differs after save_to + load_mem", json!({"request": req, "before": show_res(&res), "after": show_res(&res2)}));
+            } else { c.count("extract.same_after_reload"); }
+        }
+        if pi == 0 { c.sample(json!({"stream": "extract", "request": if req.len() < 500 { req.clone() } else { format!("{}…", &req[..500]) }, "reply": show_res(&res)})); }
+    }
+}
+
+/// reference one-byte encoder (first byte whose cell is the character) — oracle side
+fn encode_ref(t: &[Option<u16>; 256], s: &str) -> Vec<u8> {
+    s.chars().map(|ch| t.iter().position(|c| *c == Some(ch as u32 as u16)).expect("char in repertoire") as u8).collect()
+}
